@@ -11,6 +11,8 @@
 
 use httparse::{Header, ParserConfig, Request, Response, Status, EMPTY_HEADER};
 
+mod xt;
+
 fn make_config(bits: u8) -> ParserConfig {
     let mut c = ParserConfig::default();
     c.allow_spaces_after_header_name_in_responses(bits & 1 != 0);
@@ -251,6 +253,165 @@ fn partition(p: usize, sink: Sink<'_>) {
     }
 }
 
+
+// ---------------------------------------------------------------------------------------------
+// Reduced corpus for interpreted runs on other targets (Miri: 32-bit, big-endian): the same
+// generators as `partition`, smaller parameters. 5 parts.
+const MINI_PARTS: usize = 5;
+const MINI_VALS: [u8; 18] = [0, 9, 10, 13, 0x1f, 0x20, 0x21, b':', b'(', b'A', b'z', 0x7e, 0x7f, 0x80, 0xc3, 0xa9, 0xf4, 0xff];
+
+fn mini_partition(p: usize, sink: Sink<'_>) {
+    match p {
+        0 => {
+            // lane-phase sweep of every field, lengths over two 64-bit words plus a tail
+            for f in FIELDS.iter() {
+                let mut buf = Vec::new();
+                for l in 0..=19usize {
+                    buf.clear();
+                    buf.extend_from_slice(f.pre);
+                    buf.extend(std::iter::repeat(f.fill).take(l));
+                    buf.extend_from_slice(f.post);
+                    sink(f.entry, f.cfg, 2, &buf);
+                    for pos in 0..l {
+                        for &v in MINI_VALS.iter() {
+                            buf[f.pre.len() + pos] = v;
+                            sink(f.entry, f.cfg, 2, &buf);
+                        }
+                        buf[f.pre.len() + pos] = f.fill;
+                    }
+                }
+            }
+        }
+        1 => {
+            for k in [1usize, 9] {
+                let alpha = header_alphabet(k);
+                strings(&alpha, 3, b"GET / HTTP/1.1\r\n", &mut |b| sink(Entry::Req, 0, 2, b));
+                strings(&alpha, 3, b"GET / HTTP/1.1\r\n", &mut |b| sink(Entry::Req, 16 | 64, 2, b));
+                strings(&alpha, 3, b"HTTP/1.1 200 OK\r\n", &mut |b| sink(Entry::Resp, 0, 2, b));
+                strings(&alpha, 3, b"HTTP/1.1 200 OK\r\n", &mut |b| sink(Entry::Resp, 1 | 2 | 16 | 32, 2, b));
+                strings(&alpha, 3, b"", &mut |b| sink(Entry::Headers, 0, 1, b));
+            }
+        }
+        2 => {
+            let alpha = line_alphabet(5);
+            for ctx in [&b""[..], b"GET ", b"GET / ", b"GET / HTTP/1.", b"POS", b"\r\n"] {
+                for cfg in [0u8, 4] {
+                    strings(&alpha, 2, ctx, &mut |b| sink(Entry::Req, cfg, 2, b));
+                }
+            }
+            for ctx in [&b""[..], b"HTTP/1.1", b"HTTP/1.1 ", b"HTTP/1.1 200", b"HTTP/1.1 200 ", b"\n"] {
+                for cfg in [0u8, 8] {
+                    strings(&alpha, 2, ctx, &mut |b| sink(Entry::Resp, cfg, 2, b));
+                }
+            }
+        }
+        3 => {
+            let alpha: Vec<Vec<u8>> = [&b"0"[..], b"9", b"a", b"f", b"A", b"F", b"g", b" ", b"\t", b";", b"\r", b"\n", b"\0", b"\x80"].iter().map(|s| s.to_vec()).collect();
+            for n in [0usize, 7, 8, 9, 15, 16, 17] {
+                for d in [b'f', b'8'] {
+                    let pre = vec![d; n];
+                    strings(&alpha, 2, &pre, &mut |b| sink(Entry::Chunk, 0, 0, b));
+                }
+            }
+        }
+        _ => partition(NPART - 1, sink),
+    }
+}
+
+fn in_class(class: u8, b: u8) -> bool {
+    // written from the statement of C12
+    match class {
+        0 => (0x21..=0x7e).contains(&b) || b >= 0x80,
+        1 => b == 9 || (0x20..=0x7e).contains(&b) || b >= 0x80,
+        _ => b.is_ascii_alphanumeric() || b"!#$%&'*+-.^_`|~".contains(&b),
+    }
+}
+
+/// Scanner grid for the word-at-a-time scanners and whatever the build dispatches to, on this
+/// target: (a) every string of length <= k over a 5-symbol boundary alphabet of the class,
+/// (b) one offender of 12 values at every position of every length <= lmax; both at every start
+/// offset 0..8 of an 8-aligned array. Prints violations and "scangrid <executions> <violations>".
+#[cfg(httparse_verif)]
+fn scangrid(k: usize, lmax: usize, only_class: Option<u8>, small: bool) -> (u64, u64) {
+    use httparse::_benchable::Bytes;
+    use httparse::_verif::{scan, BACKEND_DISPATCH, BACKEND_SWAR};
+    #[repr(align(8))]
+    struct Arena([u8; 160]);
+    let mut arena = Arena([0x41; 160]);
+    let mut runs = 0u64;
+    let mut bad = 0u64;
+    let check = |arena: &Arena, a: usize, len: usize, class: u8, runs: &mut u64, bad: &mut u64| {
+        let s = &arena.0[a..a + len];
+        let want = s.iter().position(|&b| !in_class(class, b)).unwrap_or(len);
+        for backend in [BACKEND_SWAR, BACKEND_DISPATCH] {
+            let mut by = Bytes::new(s);
+            if !scan(backend, class, &mut by) {
+                continue;
+            }
+            *runs += 1;
+            let got = by.pos();
+            if got != want {
+                *bad += 1;
+                if *bad <= 20 {
+                    println!("SCAN class {} backend {} offset {} input {} stopped at {} expected {}", class, backend, a, hex(s), got, want);
+                }
+            }
+        }
+    };
+    for class in 0..3u8 {
+        if only_class.map_or(false, |c| c != class) {
+            continue;
+        }
+        let alpha: [u8; 5] = match class {
+            0 => [b'a', 0x21, 0x20, 0x7f, 0xff],
+            1 => [b'a', 0x20, 0x09, 0x1f, 0x7f],
+            _ => [b'a', b'~', b':', 0x80, b' '],
+        };
+        for a in [0usize, 1, 3] {
+            for len in 0..=k {
+                let mut idx = vec![0usize; len];
+                'outer: loop {
+                    for (j, &i) in idx.iter().enumerate() {
+                        arena.0[a + j] = alpha[i];
+                    }
+                    check(&arena, a, len, class, &mut runs, &mut bad);
+                    let mut j = len;
+                    loop {
+                        if j == 0 {
+                            break 'outer;
+                        }
+                        j -= 1;
+                        idx[j] += 1;
+                        if idx[j] < alpha.len() {
+                            break;
+                        }
+                        idx[j] = 0;
+                    }
+                }
+            }
+        }
+        let fill = b'a';
+        let vals: &[u8] = if small { &[0, 9, 0x1f, 0x20, 0x7f, 0xff] } else { &[0, 9, 10, 13, 0x1f, 0x20, 0x21, b':', 0x7e, 0x7f, 0x80, 0xff] };
+        let offs: &[usize] = if small { &[0, 1, 3] } else { &[0, 1, 2, 3, 4, 5, 6, 7] };
+        for &a in offs {
+            for len in 0..=lmax {
+                for j in 0..len {
+                    arena.0[a + j] = fill;
+                }
+                check(&arena, a, len, class, &mut runs, &mut bad);
+                for pos in 0..len {
+                    for &v in vals.iter() {
+                        arena.0[a + pos] = v;
+                        check(&arena, a, len, class, &mut runs, &mut bad);
+                    }
+                    arena.0[a + pos] = fill;
+                }
+            }
+        }
+    }
+    (runs, bad)
+}
+
 fn force(backend: &str) {
     #[cfg(httparse_verif)]
     {
@@ -267,6 +428,7 @@ fn force(backend: &str) {
                 std::process::exit(3);
             }
         };
+        #[cfg(any(target_arch = "x86", target_arch = "x86_64"))]
         if which == 0 && !std::is_x86_feature_detected!("avx2") || which == 1 && !std::is_x86_feature_detected!("sse4.2") {
             eprintln!("backend {} is not supported by this CPU", backend);
             std::process::exit(3);
@@ -441,6 +603,130 @@ fn main() {
                 println!("{} {} {:016x}", p, n, d);
             }
             println!("total {}", total);
+        }
+        Some("mini") => {
+            // single-threaded on purpose (interpreters)
+            force(&backend);
+            let mut total = 0u64;
+            for p in 0..MINI_PARTS {
+                let mut h = 0xcbf29ce484222325u64;
+                let mut n = 0u64;
+                mini_partition(p, &mut |e, cfg, cap, b| {
+                    let r = call(e, cfg, cap, b);
+                    fnv(&mut h, b);
+                    fnv(&mut h, r.as_bytes());
+                    n += 1;
+                });
+                total += n;
+                println!("{} {} {:016x}", p, n, h);
+            }
+            println!("total {}", total);
+            println!("target pointer-width {} endian {}", usize::BITS, if cfg!(target_endian = "big") { "big" } else { "little" });
+        }
+        Some("mini-dump") => {
+            force(&backend);
+            let p: usize = args[2].parse().unwrap();
+            let out = std::io::stdout();
+            let mut lock = std::io::BufWriter::new(out.lock());
+            use std::io::Write;
+            mini_partition(p, &mut |e, cfg, cap, b| {
+                let r = call(e, cfg, cap, b);
+                writeln!(lock, "{:?} {} {} {} {}", e, cfg, cap, hex(b), r).unwrap();
+            });
+        }
+        Some("scangrid") => {
+            #[cfg(httparse_verif)]
+            {
+                let k: usize = args.get(2).and_then(|s| s.parse().ok()).unwrap_or(6);
+                let lmax: usize = args.get(3).and_then(|s| s.parse().ok()).unwrap_or(24);
+                let only_class: Option<u8> = args.get(4).and_then(|s| s.parse().ok());
+                let small = args.get(5).map_or(false, |s| s == "small");
+                let (runs, bad) = scangrid(k, lmax, only_class, small);
+                println!("scangrid {} {}", runs, bad);
+                println!("target pointer-width {} endian {}", usize::BITS, if cfg!(target_endian = "big") { "big" } else { "little" });
+                std::process::exit(if bad > 0 { 1 } else { 0 });
+            }
+            #[cfg(not(httparse_verif))]
+            {
+                eprintln!("built without hooks");
+                std::process::exit(3);
+            }
+        }
+        Some("deep") => {
+            // every size family at <size> bytes, three variants, each parse on a thread with a
+            // small fixed stack: stack use that grows with the input (recursion per line, per
+            // header, per byte) ends the process here. One "start"/"ok" line pair per case, so
+            // that the parent knows which case the process died in.
+            force(&backend);
+            let n: usize = args[2].parse().unwrap();
+            let only = args.get(3).cloned();
+            use std::io::Write;
+            let mut cases = 0u64;
+            for f in families() {
+                if let Some(o) = &only {
+                    if o != f.name {
+                        continue;
+                    }
+                }
+                for v in ["complete", "unterminated", "error"] {
+                    let mut input = (f.gen)(n);
+                    if v != "complete" {
+                        while matches!(input.last(), Some(b'\r') | Some(b'\n')) {
+                            input.pop();
+                        }
+                        if v == "unterminated" {
+                            input.pop();
+                        } else {
+                            input.extend_from_slice(b"\0\r\n\r\n");
+                        }
+                    }
+                    println!("start {} {} {}", f.name, v, input.len());
+                    std::io::stdout().flush().unwrap();
+                    let (entry, cfg) = (f.entry, f.cfg);
+                    let cap = n / 3 + 8;
+                    let h = std::thread::Builder::new()
+                        .stack_size(256 * 1024)
+                        .spawn(move || {
+                            let input: &'static [u8] = Box::leak(input.into_boxed_slice());
+                            let arr: &'static mut [Header<'static>] = Box::leak(vec![EMPTY_HEADER; cap].into_boxed_slice());
+                            let e = match entry {
+                                Entry::Req => 0,
+                                Entry::Resp => 1,
+                                Entry::Headers => 2,
+                                Entry::Chunk => 3,
+                            };
+                            verif_work_parse(e, cfg, arr, input)
+                        })
+                        .unwrap();
+                    match h.join() {
+                        Ok(r) => println!("ok {} {} {}", f.name, v, r),
+                        Err(_) => println!("panic {} {}", f.name, v),
+                    }
+                    cases += 1;
+                }
+            }
+            println!("deep: {} cases", cases);
+        }
+        Some("xrun") => {
+            force(&backend);
+            let num = |i: usize, d: usize| args.get(i).and_then(|s| s.parse().ok()).unwrap_or(d);
+            xt::xrun(args.get(2).map(|s| s == "thorough").unwrap_or(false), args.get(3).and_then(|s| s.parse().ok()), num(4, 0), num(5, 1));
+        }
+        Some("xsizes") => xt::xsizes(args.get(2).map(|s| s == "thorough").unwrap_or(false)),
+        Some("xdump") => {
+            force(&backend);
+            let num = |i: usize, d: usize| args.get(i).and_then(|s| s.parse().ok()).unwrap_or(d);
+            xt::xdump(args.get(2).map(|s| s == "thorough").unwrap_or(false), args[3].parse().unwrap(), num(4, 0), num(5, 1));
+        }
+        Some("xone") => {
+            force(&backend);
+            let e = match args[2].as_str() {
+                "Req" => Entry::Req,
+                "Resp" => Entry::Resp,
+                "Headers" => Entry::Headers,
+                _ => Entry::Chunk,
+            };
+            xt::xone(e, args[3].parse().unwrap(), args[4].parse().unwrap(), &unhex(&args[5]));
         }
         Some("dump") => {
             force(&backend);
